@@ -307,6 +307,27 @@ def mon_C05(case, obs):
     return out
 
 
+def mon_C05_after_result(case, obs):
+    out = []
+    for n, (e, o) in enumerate(zip(case['events'], obs)):
+        if not n or e[0] not in ('scan', 'scan_step'):
+            continue
+        prev = obs[n - 1]['jobs']
+        for k, j in _apply_jobs(o):
+            if k < len(prev) and prev[k]['ready']:
+                if len(j['cb'][3]) > len(prev[k]['cb'][3]):
+                    out.append(('C05:timeout-action-after-result',
+                                'job %d was already resolved (%s) when the scan step at event %d ran its timeout callback %s'
+                                % (k, prev[k]['val'], n, j['cb'][3][-1])))
+        for p, sg in o['sigs']:
+            if sg in (15, 9):
+                owned = [j for j in prev if j['kind'] == 'apply' and p in j['wpids'] and not j['ready']]
+                if not owned:
+                    out.append(('C05:kill-without-running-job',
+                                'signal %d sent to pid %d at event %d %s although it owns no unresolved job' % (sg, p, n, e)))
+    return out
+
+
 def mon_C05_jobs(case, obs):
     """needs the per-job limits: recomputed from the apply events"""
     out = []
@@ -371,6 +392,11 @@ def mon_C09(case, obs):
                 out.append(('C09:pool-below-size-after-pass', '%d workers, size %d at event %d' % (len(o['workers']), o['nprocs'], n)))
             if prev is not None and len(o['workers']) > max(o['nprocs'], len(prev['workers'])):
                 out.append(('C09:pool-above-size-after-pass', '%d workers, size %d' % (len(o['workers']), o['nprocs'])))
+            free = [w for w in o['workers'] if not w[2]]
+            if len(free) > o['nprocs']:
+                out.append(('C09:more-workers-than-size',
+                            '%d workers not being stopped for a configured size of %d after the pass at event %d'
+                            % (len(free), o['nprocs'], n)))
         if e[0] != 'tick' and n and len(o['workers']) > len(obs[n - 1]['workers']):
             out.append(('C09:worker-started-outside-supervision', 'event %s' % e))
     return out
@@ -507,8 +533,72 @@ def mon_known_C09(case, obs):
     return out
 
 
-MONITORS = dict(C01=[mon_C01], C04=[mon_C04, mon_known_C04], C05=[mon_C05, mon_C05_jobs, mon_known_C05], C06=[mon_C06],
+MONITORS = dict(C01=[mon_C01], C04=[mon_C04, mon_known_C04], C05=[mon_C05, mon_C05_jobs, mon_C05_after_result, mon_known_C05], C06=[mon_C06],
                 C09=[mon_C09, mon_known_C09], C10=[mon_C10, mon_known_C10], C11=[mon_C11])
+
+
+# ------------------------------------------------------------------ systematic sweeps
+def sweep_loss():
+    """two (or three) jobs on different workers; the workers die at every combination of a few
+    instants, in both orders, with equal and different lost-worker timeouts; one supervision
+    pass per second for long enough to see every deadline.  Small-scope exhaustive support for
+    the random histories (never a proof)."""
+    out = []
+    for la in (None, 3):
+        for lb in (None, 3):
+            for ta in (1, 4, 8):
+                for tb in (1, 4, 8):
+                    for third in (False, True):
+                        if third and (ta, tb) not in ((1, 4), (8, 1)):
+                            continue
+                        ev = [['apply', None, None, la, None], ['apply', None, None, lb, None],
+                              ['ack', 0, None, 0], ['ack', 1, None, 1]]
+                        if third:
+                            ev += [['apply', None, None, 3, None], ['ack', 2, None, 2]]
+                        for t in range(1, 23):
+                            ev.append(['advance', 1])
+                            if t == ta:
+                                ev.append(['exit', 0, -11])
+                            if t == tb:
+                                ev.append(['exit', 1, 155 if lb else -9])
+                            if third and t == 2:
+                                ev.append(['exit', 2, 1])
+                            ev.append(['tick'])
+                        out.append(dict(cfg=dict(n=3), events=ev))
+    return out
+
+
+def sweep_limits():
+    """one or two accepted jobs under a grid of (pool soft, pool hard, job soft, job hard); a scan
+    every second past every limit; the result arriving never / before a scan / in the middle of
+    a scan (between the snapshot and the job's step)"""
+    out = []
+    grid = [(None, None), (2, None), (None, 4), (2, 4), (3, 3), (4, 2), (0, 5)]
+    for pool_lim in ((None, None), (3, 6)):
+        for so, ha in grid:
+            for result in (None, ('before', 3), ('before', 5), ('mid', 2), ('mid', 4), ('mid', 6)):
+                if pool_lim == (None, None) and (so, ha) == (None, None):
+                    continue
+                cfg = dict(n=2, soft=pool_lim[0], hard=pool_lim[1], enable_timeouts=True)
+                ev = [['apply', so, ha, None, None], ['apply', None, None, None, None],
+                      ['ack', 0, None, 0], ['ack', 1, None, 1]]
+                for t in range(1, 9):
+                    ev.append(['advance', 1])
+                    if result and result[0] == 'before' and result[1] == t:
+                        ev.append(['ready', 0, None, True, 7])
+                    if result and result[0] == 'mid' and result[1] == t:
+                        ev += [['scan_begin'], ['ready', 0, None, True, 7], ['scan_step', t % 2 == 0],
+                               ['scan_step', False], ['scan_end']]
+                    else:
+                        ev.append(['scan', t % 3 == 0])
+                    if t in (5, 8):
+                        ev.append(['tick'])
+                out.append(dict(cfg=cfg, events=ev))
+    return out
+
+
+SWEEPS = dict(C01=lambda: sweep_loss()[::3] + sweep_limits()[::3], C04=sweep_loss, C05=sweep_limits, C06=sweep_limits,
+              C08=lambda: sweep_loss()[::6], C09=lambda: sweep_loss()[::6])
 
 
 def pool_check(res, pid, n, focus=None, cfg=None, length=(5, 45), extra_cases=()):
@@ -517,6 +607,12 @@ def pool_check(res, pid, n, focus=None, cfg=None, length=(5, 45), extra_cases=()
     rng = random.Random(res.seed * 65537 + sum(map(ord, pid)))
     corpus = json.load(open(core.VERIF + '/corpus/pool.json'))
     reqs = [dict(cfg=c['cfg'], events=c['events']) for c in corpus] + list(extra_cases)
+    sweep = SWEEPS.get(pid)
+    nsweep = 0
+    if sweep:
+        sw = sweep()
+        nsweep = len(sw)
+        reqs += sw
     reqs += gen_requests(rng, n, length=length, focus=focus, cfg=cfg)
     outs = []
     for part in core.chunks(reqs, 400):
@@ -565,7 +661,8 @@ def pool_check(res, pid, n, focus=None, cfg=None, length=(5, 45), extra_cases=()
                 rule='corpus of defect witnesses + state-aware random pool histories (harness/pool_gen.py) driven through the '
                      'real parent-side code with fake processes and a fake clock; every observation compared with the proved '
                      'model inside Coq; property monitors on the implementation trace; non-trivial = at least 4 distinct event kinds',
-                event_histogram=hist, events_total=sum(hist.values()), model_mismatches=len(codes))
+                event_histogram=hist, events_total=sum(hist.values()), model_mismatches=len(codes),
+                systematic_sweep_histories=nsweep, corpus_histories=len(corpus))
     return cases, outs
 
 
@@ -723,7 +820,11 @@ def real_scenarios(res, pid, specs):
             if r['outcome'] != ['ok', 'caught']:
                 alarm('C06:real-soft-limit-not-raised-in-task', 'outcome %s' % r['outcome'])
         elif k == 'worker_lost':
-            if r['outcome'][:2] != ['exc', 'WorkerLostError'] or 'signal %d' % sp.get('sig', 9) not in ' '.join(r['outcome'][2]):
+            # signals billiard's own handlers catch (TERM, ABRT, ...) end the worker through an
+            # exit status; only uncaught ones are reported as 'signal N'
+            uncaught = sp.get('sig', 9) in (9, 11, 4, 8)
+            if r['outcome'][:2] != ['exc', 'WorkerLostError'] or \
+                    (uncaught and 'signal %d' % sp.get('sig', 9) not in ' '.join(r['outcome'][2])):
                 alarm('C04:real-loss-not-reported', 'outcome %s' % r['outcome'])
             if r['other'][0] != 'ok' or r['later'] != ['ok', 14] or r['size'] != 2:
                 alarm('C04:real-other-jobs-affected', 'other %s later %s size %s' % (r['other'], r['later'], r['size']))
